@@ -93,6 +93,11 @@ claimed = {
   note="the network between source and destination is a buffer cut at seeded offsets; coordinator.Service's CopyShard RPC and the meta handler adding the owner are not run; incremental (since) backups are not explored (file mtimes are real time, the simulation clock is fake); truncated-stream acceptance and the broken time-bounded export are listed known findings",
   technique=SIM + ": seeded source histories, window-level yield inside the backup's snapshot, stream-cut fault injection, LWW model comparison",
   ref="3 C18"),
+ "C19": dict(
+  text="The test binary is built with the race detector. A run starts 2-5 client goroutines at a barrier, each executing its plan-decided sequence of public operations on one shared object: (store) writes to own and shared series, reads, cache snapshots, compactions, deletes and drops of other series, conflicting writes of different types to new fields on one shard of a real tsdb.Store (inmem/tsi1); (handoff) concurrent writers into a real hinted-handoff NodeProcessor while its retry loop delivers on the simulated clock; (meta) the meta state machine applying 5-60 generated commands while snapshots are taken/persisted and readers copy the metadata; (pool) clients of the inter-node connection pool (get, use, return, mark unusable, double close, idle pruning on the simulated clock, pool close). Every operation is stamped with a global sequence number at invoke and return. Oracles: race detector reports; watchdog (clients that never finish = deadlock, with the blocked goroutines); panics and process crashes on goroutines of the code under test; a read contains every write acknowledged before it began and nothing never written; afterwards and after reopening every acknowledged write reads back; a field written with conflicting types holds one type; every handed-off point is delivered; a persisted metadata snapshot decodes and equals the state after some prefix of the commands; the pool never exceeds its bound, hands no connection to two clients or closed, leaks none. Deterministic windows through yield points place (a) a conflicting write between another write's field validation and its field creation / cache write, (b) a second field creation between a creator's lock-free lookup and its lock.",
+  note="which goroutine runs when is the Go scheduler's decision: a seed fixes operations, order per client and pauses, not the interleaving (the window scenarios are deterministic); replays are attempted up to 20 times and race reports that arrive after a worker's last run are reported with the worker's race log as replay file; raft is replaced by one applier goroutine; the handoff target and pool connections are stubs; porcupine is not used - the oracles are per-series containment checks, which are linear, because every written value is unique",
+  technique=SIM + ": seeded concurrent-client plans under the Go race detector, invoke/return-stamped histories checked against an acknowledged-writes model, deterministic window scheduling at yield points, simulated clock for retry/idle timers",
+  ref="3 C19"),
 }
 
 NA = {
